@@ -243,7 +243,16 @@ def F_root0(F, t):
 
 
 def stream_node_counts(ctx, built, ntables=None):
-    return stream_tree(ctx, built, ntables or ctx.scale(12, 120), with_counts=True, name="S-node", maxdim=2)
+    def floor_oracle(t, F, comb, root):
+        # released node counts are never below low_threshold, however often a node is asked (the dump above has asked every node twice already)
+        lt = t["ap"].low_count_params.low_threshold
+        for path, node in walk(root):
+            c = node.noisy_count()
+            if c < lt:
+                ctx.oracle_fail(f"node {'/'.join(map(str, path)) or 'root'} of the tree of columns {comb} releases the count {c} below low_threshold {lt} "
+                                f"(asked for the third time)", {"table": table_summary(t), "comb": comb, "path": list(path), "count": c, "lt": lt}, "node-count-floor")
+                return
+    return stream_tree(ctx, built, ntables or ctx.scale(12, 120), with_counts=True, name="S-node", maxdim=2, oracle=floor_oracle)
 
 
 # ---- S-harv: harvest(tree, rng) ------------------------------------------------------------------------------
